@@ -3,7 +3,7 @@ import json
 import os
 import vlib
 
-LEVEL = "exploration"
+LEVEL = "model_checking"
 HARNESS = [os.path.join(vlib.HARNESS, "root", "common_test.go"), os.path.join(vlib.HARNESS, "root", "lancero_test.go")]
 
 
@@ -61,10 +61,6 @@ def run_driver(ctx, scens, nrandom, tag="t"):
         if e["ev"] == "Config":
             cur = e
             cur["mixlo"], cur["mixhi"] = 0, 0
-            whole = e["whole"]
-            cur["beforegap"] = 0
-            if e["gap"]:
-                cur["beforegap"] = sum(1 for i in range(len(whole)) if whole[i] == i)
             nblk = 0
         elif e["ev"] == "Block":
             nblk += 1
@@ -159,14 +155,60 @@ def validate(ctx, scens, nrandom, tag="t"):
     return events, viols
 
 
+EXTS = {"Ext1": [[1, 1], [1, 2], [3, 0]], "Ext2": [[2, 1], [4, 0], [4, 1]], "NoExt": []}
+
+
+def cfg_consts(cfg):
+    out = {}
+    with open(os.path.join(vlib.SPEC, cfg)) as f:
+        for line in f:
+            line = line.strip()
+            if line.startswith("CONSTANTS"):
+                line = line[len("CONSTANTS"):].strip()
+            for k in ("Cols", "Rows", "NFrames"):
+                if line.startswith(k + " ="):
+                    out[k] = int(line.split("=")[1])
+            if line.startswith("ExtCells <-"):
+                out["ext"] = EXTS[line.split("<-")[1].strip()]
+    return out
+
+
+def scen_from_cex(r, cfg, origin):
+    """LanceroIngest.tla behaviour -> driver scenario (production points in bytes, the loss, the external-trigger cells)."""
+    k = cfg_consts(cfg)
+    reads, gap = [], None
+    for st in r.error_trace:
+        a = st.get("act") or {}
+        if a.get("a") == "Produce":
+            reads.append(4 * a["to"])
+        if st.get("GapLen"):
+            gap = {"at": 4 * st["GapAt"], "len": 4 * st["GapLen"]}
+    total = 4 * k["Cols"] * k["Rows"] * k["NFrames"] - (gap["len"] if gap else 0)
+    reads.append(total)
+    return {"origin": origin, "cols": k["Cols"], "rows": k["Rows"], "nsampcard": 4, "nframes": k["NFrames"], "ext": k["ext"], "reads": reads, "gap": gap,
+            "mix": [], "mixafter": 0, "mix2": [], "frame0": 0, "valmode": "id", "vseed": 1}
+
+
 def run(ctx):
     q = ctx.quick()
     scens = handmade()
+    # 1. exhaustive: the code-shaped reader model (all read chunkings in the bound) follows the reference when nothing is lost
+    for cfg in ("LanceroMC.cfg", "LanceroMC13.cfg"):
+        r = vlib.run_tlc(ctx, "LanceroIngest", cfg, workers=16, timeout=1800)
+        if r.violated:
+            scens.append(scen_from_cex(r, cfg, "model-counterexample:%s:%s" % (cfg, r.violated)))
+            ctx.notes.setdefault("model_counterexamples", []).append({"cfg": cfg, "invariant": r.violated})
+    # 2. one run per deviation switch (the repaired defects) and the design limit F5b: canonical histories, replayed on the code
+    for cfg in ("LanceroAsCodeExt.cfg", "LanceroAsCodeCounter.cfg", "LanceroAsCodeAlign.cfg", "LanceroAsTreeGap.cfg"):
+        r = vlib.run_tlc(ctx, "LanceroIngest", cfg, workers=8, timeout=900)
+        if r.violated:
+            scens.append(scen_from_cex(r, cfg, "deviation:%s:%s" % (cfg, r.violated)))
     nrandom = 150 if q else 3000
     ctx.notes["scenarios_random"] = nrandom
     validate(ctx, scens, nrandom)
     return vlib.finish(ctx, LEVEL, "scenario = (geometry, frame contents, external-trigger cells, production points of the card per read, gap, mix settings); distinct by hash; non-trivial = more than one block and (several columns or a gap or a mix)",
-                       ["the card is scripted in memory (AvailableBuffer/ReleaseBytes); the reader tick (50 ms) is the real one, scenarios run concurrently",
+                       ["exhaustive model: geometries 2x2 and 1x3, 9-10 frames, 6 production steps, <= 5 reads; the model with a loss is checked only as 'the tree has design limit F5b' (a reader that follows the reference under every loss is not modelled)",
+                        "the card is scripted in memory (AvailableBuffer/ReleaseBytes); the reader tick (50 ms) is the real one, scenarios run concurrently",
                         "lost bytes are whole words and not a whole number of frames (a loss of exactly k frames is invisible to any reader of the frame bits)",
                         "mix fractions are dyadic so that the expected value is exact; the rounding direction of a half is not prescribed (floor or ceiling accepted)",
                         "one card (the source itself refuses several)"])
